@@ -334,12 +334,10 @@ class Builder:
     def annotation(self, spec):
         """memoised per builder: a sub-spec is built once, so that a diagnosis that re-parses a part of a value
         uses the very type object (same declaration route) that sits inside the enclosing type"""
-        try:
-            hit = self._memo.get(spec)
-        except TypeError:  # unhashable spec
-            return self._annotation(spec)
+        key = repr(spec)   # not the spec itself: ('lit', (True,)) == ('lit', (1,)) == ('lit', (1.0,)) as tuples
+        hit = self._memo.get(key)
         if hit is None:
-            hit = self._memo[spec] = (self._annotation(spec),)
+            hit = self._memo[key] = (self._annotation(spec),)
         return hit[0]
 
     def _annotation(self, spec):
